@@ -61,16 +61,19 @@ Theorem C54_already_encoded_untouched : forall ae cenc has_clen has_rule cmd,
 Proof. exact handler_already_encoded. Qed.
 Print Assumptions C54_already_encoded_untouched.
 
-(* the executable property predicate holds of the model on every well-shaped input of either operation *)
-Theorem C54_prop_of_model_filter : forall codec level flush cs p,
-  let i := VL [VZ 1; VZ codec; VZ level; VZ flush; vLB cs; VZ p] in prop_C54 i (run_C54 i) = true.
-Proof. exact prop_of_model_filter. Qed.
-Print Assumptions C54_prop_of_model_filter.
-Theorem C54_prop_of_model_handler : forall cmd has_rule ae cenc has_cl level flush body,
-  let i := VL [VZ 2; VZ cmd; VZ has_rule; VB ae; VB cenc; VZ has_cl; VZ level; VZ flush; VB body] in
-  prop_C54 i (run_C54 i) = true.
-Proof. exact prop_of_model_handler. Qed.
-Print Assumptions C54_prop_of_model_handler.
+(* Central theorem: every decodable input (filter run, with or without a failing backend; handler call with any rule
+   situation) is well-formed, there is no known-finding class, and the executable property predicate evaluated on the
+   implementation (decoded = body and the backend body closed once; failing backend: error reported and a prefix
+   delivered; headers as in the statement) holds of the model. *)
+Theorem C54_prop_of_model : forall i, wf_C54 i = true -> kf_C54 i = 0 -> prop_C54 i (run_C54 i) = true.
+Proof. exact prop_C54_of_model. Qed.
+Print Assumptions C54_prop_of_model.
+
+(* a corpus case (corpus/C54/basics.case, h-gzip) is well-formed: gzip rule, "gzip" accepted, Content-Length dropped *)
+Example C54_wf_example :
+  let i := VL [VZ 2; VZ 0; VZ 1; VB GZIP; VB []; VZ 1; VZ 6; VZ 64; VB [104; 101; 108; 108; 111]] in
+  wf_C54 i = true /\ run_C54 i = VL [VB GZIP; VZ 0; VZ 1; VB [104; 101; 108; 108; 111]; VZ 1].
+Proof. exact C54_wf_example_lemma. Qed.
 
 (* Non-vacuity: body 10..15 in chunks of 3, 2, 1 bytes, flush size 4, client buffers 3, 100, 1, 100: the reads pull
    4, 2, 0 (close), 0 (EOF) bytes and the received stream decodes to the body. *)
